@@ -13,13 +13,17 @@ PROPS = {
             'assumptions': ['the Linter is idle (both flags off) between lint() calls: holds as Linter has private fields and is built by Default',
                             'that Poison::Error(MissingBraces/NonFinalLoopStatement/MisplacedLoopStatement) surfaces as E840/E800/E801 is the resolver\'s error collection'],
             'trusted': []},
-    'C09': {'units': ['U-VT', 'U-LEXD', 'U-LINT'], 'assumptions': ['alpha lexer/parser literal handling and generator constant materialisation are not under contract'], 'trusted': []},
+    'C09': {'units': ['U-VT', 'U-LEXD', 'U-LEXA', 'U-LINT'], 'assumptions': ['alpha parser literal handling (negation, suffix inference) and generator constant materialisation are not under contract',
+            'alpha lexer: the direction proved is accepted => well formed with the documented value (so malformed literals are rejected); that every well-formed literal is accepted, and the specific error kinds E160-E163 per malformation, are not proved',
+            'alpha lexer std calls under assumed specs (checked against real std by an exhaustive/random scratch program, not on every run): char::{is_ascii_hexdigit,is_ascii_digit,is_digit,is_ascii_graphic,is_ascii,from_u32,encode_utf8,to_string}, {u8,u32,u128}::from_str_radix on all-digit strings, str::parse::<u128>, String::{len,as_bytes}, str::len'], 'trusted': []},
     'C11': {'units': ['U-VT', 'U-ALIGN', 'U-EXTERN'], 'assumptions': ['permutation invariance (Compiler sorting, feature-gated) and cycle detection (found_container*) are not under contract',
             'align_struct preconditions (struct or word with sized members; layout fits usize) are the typer\'s obligation, not verified'], 'trusted': []},
     'C08': {'units': ['U-MUT', 'U-MUTW', 'U-FCALL'], 'assumptions': ['the whole-program non-interference consequence is not under contract; constant initialisers are not walked by mutability.rs (relies on constness.rs, not under contract)'], 'trusted': []},
     'C12': {'units': ['U-EXPORT', 'U-KEYOFF'], 'assumptions': ['expand (import fix-point), Compiler multi-module state and split-equivalence are not under contract'], 'trusted': []},
     'C13': {'units': ['U-CODE', 'U-LEXD', 'U-LOC'], 'assumptions': ['alpha spans, rendering (ariadne) and run-to-run determinism are not under contract'], 'trusted': []},
-    'C14': {'units': ['U-LEXD'], 'assumptions': ['the alpha lexer itself is not under contract, hence not the headline equivalence'], 'trusted': []},
+    'C14': {'units': ['U-LEXD', 'U-LEXA'], 'assumptions': ['the headline equivalence of the two lexers is not stated as one theorem: each lexer is verified against its own declarative token/span/value spec',
+            'alpha lexer: line offsets are proved to be the running sum of (characters + 1) per line, not the true character index (false for CRLF sources: D9); str::lines is modelled only by: sum of (chars+1) over lines <= chars+1, "" has no lines',
+            'alpha lexer: keyword and punctuation tables in the spec restate the language tables (no documented list exists in the repository)'], 'trusted': []},
     'C15': {'units': ['U-LEXD', 'U-PARSE', 'U-HDR', 'U-DIG'], 'assumptions': ['XML dumps (as_xml/print_xml) excluded: format!/Box<dyn Iterator>/&str slicing',
             'parse() precondition: the token list comes from lex() without errors (ends in two EndOfSource tokens, packed words well formed) - the lexer unit does not yet export this as a postcondition',
             'parse() precondition: 5 + 5 * tokens <= 2^24 (node ids are 24 bits): for inputs above ~3.3 million tokens U24::new would overflow (debug_assert) - documented size regime, see DESIGN.md section 5 (D10)',
